@@ -2,11 +2,631 @@
 Completeness of the parser model with respect to the grammar of `Spec/Grammar.lean`
 (includes: the fuel `parseFuel` is always enough).
 -/
-import Mathy.Spec.Grammar
+import Mathy.Proofs.ParserCompleteAux
 namespace Mathy
+namespace PC
+
+/-! ### one iteration of the `parse_factors` loop -/
+
+/-- one iteration of the `parse_factors` loop: a single primary -/
+def primStep (fuel : Nat) (ts : List Tok) : Except PErr (Ex × List Tok) :=
+  match ts with
+  | ⟨.variable, v⟩ :: _ =>
+    match eat .variable ts with
+    | .error e => .error e
+    | .ok ts' => .ok (.var 0 (v.headD 'x'), ts')
+  | ⟨.function, _⟩ :: _ => parseFunction fuel ts
+  | ⟨.openParen, _⟩ :: _ =>
+    match eat .openParen ts with
+    | .error e => .error e
+    | .ok ts' =>
+      match parseAdd fuel ts' with
+      | .error e => .error e
+      | .ok (e, ts2) =>
+        match eat .closeParen ts2 with
+        | .error e => .error e
+        | .ok ts3 => .ok (e, ts3)
+  | _ => .error .unexpectedBehavior
+
+theorem factorsLoop_succ (fuel : Nat) (acc : List Ex) (ts : List Tok) :
+    factorsLoop (fuel + 1) acc ts =
+      match primStep fuel ts with
+      | .error e => .error e
+      | .ok (f, ts) =>
+        if firstFactor (headType ts) then factorsLoop fuel (f :: acc) ts else .ok (f :: acc, ts) := by
+  simp only [factorsLoop]; rfl
+
+theorem primStep_var (fuel : Nat) (t : Tok) (h : t.type = .variable) (tl : List Tok) :
+    primStep fuel (t :: tl) = .ok (.var 0 (t.value.headD 'x'), tl) := by
+  obtain ⟨ty, v⟩ := t
+  simp only at h; subst h
+  simp [primStep, eat, headType_cons, advance]
+
+theorem primStep_fn (fuel : Nat) (t : Tok) (h : t.type = .function) (tl : List Tok) :
+    primStep fuel (t :: tl) = parseFunction fuel (t :: tl) := by
+  obtain ⟨ty, v⟩ := t
+  simp only at h; subst h
+  simp [primStep]
+
+theorem primStep_paren (fuel : Nat) (t : Tok) (h : t.type = .openParen) (tl : List Tok) :
+    primStep fuel (t :: tl) =
+      match parseAdd fuel tl with
+      | .error e => .error e
+      | .ok (e, ts2) =>
+        match eat .closeParen ts2 with
+        | .error e => .error e
+        | .ok ts3 => .ok (e, ts3) := by
+  obtain ⟨ty, v⟩ := t
+  simp only at h; subst h
+  simp [primStep, eat, headType_cons, advance]
+
+/-! ### the induction motives -/
+
+def MP (ts : List Tok) (e : Ex) : Prop :=
+  G.endsClosed ts = false ∧
+  ∀ fuel rest, 8 * ts.length ≤ fuel → primStep fuel (ts ++ rest) = .ok (e, rest)
+
+def MS (ts : List Tok) (es : List Ex) : Prop :=
+  G.endsClosed ts = false ∧
+  ∀ fuel acc rest, 8 * ts.length + 1 ≤ fuel → firstFactor (headType rest) = false →
+    factorsLoop fuel acc (ts ++ rest) = .ok (es.reverse ++ acc, rest)
+
+def MF (ts : List Tok) (e : Ex) : Prop :=
+  ∀ fuel rest, 8 * ts.length + 2 ≤ fuel → firstFactor (headType rest) = false →
+    (isExpTok (headType rest) = false ∨ G.endsClosed ts = true) →
+    parseFactors fuel (ts ++ rest) = .ok (e, rest)
+
+def MU (ts : List Tok) (e : Ex) : Prop :=
+  ∀ fuel rest, 8 * ts.length + 3 ≤ fuel → firstFactor (headType rest) = false →
+    (isExpTok (headType rest) = false ∨ G.endsClosed ts = true) →
+    parseUnary fuel (ts ++ rest) = .ok (e, rest)
+
+def ME (ts : List Tok) (e : Ex) : Prop :=
+  ∀ fuel rest, 8 * ts.length + 4 ≤ fuel → contE (headType rest) = true →
+    parseExponent fuel (ts ++ rest) = .ok (e, rest)
+
+def MML (acc : Ex) (ts : List Tok) (e : Ex) : Prop :=
+  ∀ fuel rest, 8 * ts.length + 1 ≤ fuel → contM (headType rest) = true →
+    multLoop fuel acc (ts ++ rest) = .ok (e, rest)
+
+def MM (ts : List Tok) (e : Ex) : Prop :=
+  ∀ fuel rest, 8 * ts.length + 5 ≤ fuel → contM (headType rest) = true →
+    parseMult fuel (ts ++ rest) = .ok (e, rest)
+
+def MAL (acc : Ex) (ts : List Tok) (e : Ex) : Prop :=
+  ∀ fuel rest, 8 * ts.length + 1 ≤ fuel → contA (headType rest) = true →
+    addLoop fuel acc (ts ++ rest) = .ok (e, rest)
+
+def MA (ts : List Tok) (e : Ex) : Prop :=
+  ∀ fuel rest, 8 * ts.length + 6 ≤ fuel → contA (headType rest) = true →
+    parseAdd fuel (ts ++ rest) = .ok (e, rest)
+
+/-! ### Prim -/
+
+theorem c_var (t : Tok) (h : t.type = .variable) : MP [t] (.var 0 (t.value.headD 'x')) := by
+  refine ⟨by simp [G.endsClosed, h], ?_⟩
+  intro fuel rest _
+  exact primStep_var fuel t h rest
+
+theorem c_fn (f o c : Tok) (hf : f.type = .function) (ho : o.type = .openParen)
+    (hc : c.type = .closeParen) {ts : List Tok} {e : Ex} (ih : MA ts e) :
+    MP (f :: o :: ts ++ [c]) (.un 0 .sgn e) := by
+  refine ⟨?_, ?_⟩
+  · rw [endsClosed_append _ _ (by simp)]; simp [G.endsClosed, hc]
+  · intro fuel rest hfuel
+    obtain ⟨k, rfl⟩ : ∃ k, fuel = k + 1 := ⟨fuel - 1, by simp at hfuel; omega⟩
+    have h1 : parseAdd k (ts ++ (c :: rest)) = .ok (e, c :: rest) :=
+      ih k (c :: rest) (by simp at hfuel; omega) (by simp [headType_cons, hc]; decide)
+    simp only [List.cons_append, List.append_assoc, List.nil_append]
+    rw [primStep_fn _ _ hf, parseFunction]
+    simp only [headType_cons]
+    rw [eat_cons _ rfl (by simp [hf])]
+    simp only
+    rw [eat_cons _ ho (by decide)]
+    simp only [h1]
+    rw [eat_cons _ hc (by decide)]
+
+theorem c_paren (o c : Tok) (ho : o.type = .openParen) (hc : c.type = .closeParen)
+    {ts : List Tok} {e : Ex} (ih : MA ts e) : MP (o :: ts ++ [c]) e := by
+  refine ⟨?_, ?_⟩
+  · rw [endsClosed_append _ _ (by simp)]; simp [G.endsClosed, hc]
+  · intro fuel rest hfuel
+    have h1 : parseAdd fuel (ts ++ (c :: rest)) = .ok (e, c :: rest) :=
+      ih fuel (c :: rest) (by simp at hfuel; omega) (by simp [headType_cons, hc]; decide)
+    simp only [List.cons_append, List.append_assoc, List.nil_append]
+    rw [primStep_paren _ _ ho]
+    simp only [h1]
+    rw [eat_cons _ hc (by decide)]
+
+/-! ### PrimSeq -/
+
+theorem c_one {ts : List Tok} {e : Ex} (ih : MP ts e) : MS ts [e] := by
+  refine ⟨ih.1, ?_⟩
+  intro fuel acc rest hfuel hr
+  obtain ⟨k, rfl⟩ : ∃ k, fuel = k + 1 := ⟨fuel - 1, by omega⟩
+  rw [factorsLoop_succ, ih.2 k rest (by omega)]
+  simp [hr]
+
+theorem c_cons {ts ts' : List Tok} {e : Ex} {es : List Ex} (a : G.Prim ts e) (b : G.PrimSeq ts' es)
+    (ih : MP ts e) (ih' : MS ts' es) : MS (ts ++ ts') (e :: es) := by
+  have hne : ts' ≠ [] := (hd_PrimSeq b).ne_nil
+  refine ⟨by rw [endsClosed_append _ _ hne]; exact ih'.1, ?_⟩
+  intro fuel acc rest hfuel hr
+  obtain ⟨k, rfl⟩ : ∃ k, fuel = k + 1 := ⟨fuel - 1, by omega⟩
+  rw [List.append_assoc, factorsLoop_succ, ih.2 k _ (by simp at hfuel; omega)]
+  have hff : firstFactor (headType (ts' ++ rest)) = true :=
+    primStart_firstFactor _ ((hd_PrimSeq b).head rest)
+  have hlen : 0 < ts.length := List.length_pos_iff.mpr (hd_Prim a).ne_nil
+  simp only [hff, if_true]
+  rw [ih'.2 k _ rest (by simp at hfuel; omega) hr]
+  simp
+
+/-! ### Factors -/
+
+theorem parseFactors_plain (k : Nat) (ts rest : List Tok) (init : List Ex) (last f0 : Ex)
+    (fs : List Ex) (hloop : factorsLoop k [] ts = .ok (last :: init.reverse, rest))
+    (hx : isExpTok (headType rest) = false) (heq : init ++ [last] = f0 :: fs) :
+    parseFactors (k + 1) ts = .ok (G.product f0 fs, rest) := by
+  rw [parseFactors]
+  simp only [hloop, hx]
+  simp [heq, G.product]
+
+theorem parseFactors_pow (k : Nat) (ts us rest : List Tok) (x : Tok) (hx : x.type = .exponent)
+    (init : List Ex) (last u f0 : Ex) (fs : List Ex)
+    (hloop : factorsLoop k [] ts = .ok (last :: init.reverse, x :: us))
+    (hfu : firstUnary (headType us) = true) (hu : parseUnary k us = .ok (u, rest))
+    (heq : init ++ [Ex.bin 0 .pow last u] = f0 :: fs) :
+    parseFactors (k + 1) ts = .ok (G.product f0 fs, rest) := by
+  rw [parseFactors]
+  have h1 : isExpTok (headType (x :: us)) = true := by simp [headType_cons, hx, isExpTok]
+  simp only [hloop, h1, if_true]
+  rw [eat_cons _ hx (by decide)]
+  simp only [hfu, hu]
+  simp [heq, G.product]
+
+theorem c_plain {ts : List Tok} {f0 : Ex} {fs : List Ex} (ih : MS ts (f0 :: fs)) :
+    MF ts (G.product f0 fs) := by
+  intro fuel rest hfuel hr hx
+  obtain ⟨k, rfl⟩ : ∃ k, fuel = k + 1 := ⟨fuel - 1, by omega⟩
+  have hx' : isExpTok (headType rest) = false := by
+    rcases hx with h | h
+    · exact h
+    · rw [ih.1] at h; cases h
+  obtain ⟨init, last, heq⟩ : ∃ init last, f0 :: fs = init ++ [last] := by
+    rcases List.eq_nil_or_concat (f0 :: fs) with h | ⟨i, b, h⟩
+    · cases h
+    · exact ⟨i, b, by simpa using h⟩
+  have hl := ih.2 k [] rest (by omega) hr
+  rw [heq] at hl
+  simp only [List.reverse_append, List.reverse_cons, List.reverse_nil, List.nil_append,
+    List.append_nil, List.singleton_append] at hl
+  exact parseFactors_plain k _ rest init last f0 fs hl hx' heq.symm
+
+theorem c_pow (x : Tok) (hx : x.type = .exponent) {ts us : List Tok} {init : List Ex}
+    {last u f0 : Ex} {fs : List Ex} (b : G.UnaryE us u)
+    (heq : init ++ [Ex.bin 0 .pow last u] = f0 :: fs)
+    (ih : MS ts (init ++ [last])) (ih' : MU us u) : MF (ts ++ x :: us) (G.product f0 fs) := by
+  intro fuel rest hfuel hr hxr
+  obtain ⟨k, rfl⟩ : ∃ k, fuel = k + 1 := ⟨fuel - 1, by omega⟩
+  have hne : us ≠ [] := (hd_UnaryE b).ne_nil
+  have hl := ih.2 k [] (x :: us ++ rest) (by simp at hfuel; omega)
+    (by simp [headType_cons, hx]; decide)
+  simp only [List.reverse_append, List.reverse_cons, List.reverse_nil, List.nil_append,
+    List.append_nil, List.singleton_append] at hl
+  have hu := ih' k rest (by simp at hfuel; omega) hr (by
+    rcases hxr with h | h
+    · exact .inl h
+    · right
+      rwa [endsClosed_append _ _ (by simp), endsClosed_cons _ _ hne] at h)
+  rw [List.append_assoc]
+  exact parseFactors_pow k _ _ rest x hx init last u f0 fs hl
+    (unaryStart_firstUnary _ ((hd_UnaryE b).head rest)) hu heq
+
+/-! ### UnaryE -/
+
+/-- `parse_unary` after the optional leading minus has been consumed -/
+def unaryBody (fuel : Nat) (neg0 : Bool) (ts : List Tok) : PRes :=
+  if !firstFactorPrefix (headType ts) then .error .invalidSyntax
+  else
+    let withConst : Except PErr (Option Ex × Bool × List Tok) :=
+      match ts with
+      | ⟨.constant, v⟩ :: _ =>
+        match parseNumber v with
+        | none => .error .badNumber
+        | some q =>
+          match eat .constant ts with
+          | .error e => .error e
+          | .ok ts' => .ok (some (.const 0 (if neg0 then -q else q)), false, ts')
+      | _ => .ok (none, neg0, ts)
+    match withConst with
+    | .error e => .error e
+    | .ok (c, negate, ts) =>
+      let wrapNeg (e : Ex) : Ex := if negate then .un 0 .neg e else e
+      if firstFactor (headType ts) then
+        match c with
+        | none =>
+          match parseFactors fuel ts with
+          | .error e => .error e
+          | .ok (f, ts) => .ok (wrapNeg f, ts)
+        | some ce =>
+          if headType ts == .factorial then
+            match eat .factorial ts with
+            | .error e => .error e
+            | .ok ts => .ok (wrapNeg (.un 0 .fact ce), ts)
+          else
+            match parseFactors fuel ts with
+            | .error e => .error e
+            | .ok (f, ts) => .ok (wrapNeg (.bin 0 .mul ce f), ts)
+      else
+        match c with
+        | none => .error .invalidSyntax
+        | some ce => .ok (wrapNeg ce, ts)
+
+theorem parseUnary_noMinus (k : Nat) (ts : List Tok) (h : (headType ts == .minus) = false) :
+    parseUnary (k + 1) ts = unaryBody k false ts := by
+  rw [parseUnary]
+  simp only [h]
+  rfl
+
+theorem parseUnary_minus (k : Nat) (m : Tok) (hm : m.type = .minus) (ts : List Tok) :
+    parseUnary (k + 1) (m :: ts) = unaryBody k true ts := by
+  rw [parseUnary]
+  have h : (headType (m :: ts) == .minus) = true := by simp [headType_cons, hm]
+  simp only [h, if_true]
+  rw [eat_cons _ hm (by decide)]
+  rfl
+
+theorem unaryBody_lit (k : Nat) (neg0 : Bool) (c : Tok) (q : Rat) (h : G.Lit c q) (tl : List Tok) :
+    unaryBody k neg0 (c :: tl) =
+      if firstFactor (headType tl) then
+        if headType tl == .factorial then
+          match eat .factorial tl with
+          | .error e => .error e
+          | .ok ts => .ok (.un 0 .fact (.const 0 (if neg0 then -q else q)), ts)
+        else
+          match parseFactors k tl with
+          | .error e => .error e
+          | .ok (f, ts) => .ok (.bin 0 .mul (.const 0 (if neg0 then -q else q)) f, ts)
+      else .ok (.const 0 (if neg0 then -q else q), tl) := by
+  obtain ⟨ty, v⟩ := c
+  obtain ⟨h1, h2⟩ := h
+  simp only at h1 h2; subst h1
+  unfold unaryBody
+  have h3 : (!firstFactorPrefix (headType (⟨.constant, v⟩ :: tl))) = false := by
+    simp [headType_cons]; decide
+  simp only [h3, h2]
+  rw [eat_cons (t := ⟨.constant, v⟩) (ty := .constant) _ rfl (by decide)]
+  simp
+
+theorem unaryBody_factors (k : Nat) (neg0 : Bool) (ts : List Tok)
+    (h : primStart (headType ts) = true) :
+    unaryBody k neg0 ts =
+      match parseFactors k ts with
+      | .error e => .error e
+      | .ok (f, ts) => .ok (if neg0 then .un 0 .neg f else f, ts) := by
+  unfold unaryBody
+  have h3 : (!firstFactorPrefix (headType ts)) = false := by
+    revert h; cases headType ts <;> decide
+  have h4 : firstFactor (headType ts) = true := primStart_firstFactor _ h
+  cases ts with
+  | nil => simp [headType, primStart] at h
+  | cons t tl =>
+    obtain ⟨ty, v⟩ := t
+    simp only [headType_cons] at h h3 h4 ⊢
+    cases ty <;> first | (exfalso; revert h; decide) | simp [h3, h4, headType_cons]
+
+theorem primStart_not_factorial : ∀ t, primStart t = true → (t == TT.factorial) = false := by
+  intro t; cases t <;> decide
+theorem primStart_not_minus : ∀ t, primStart t = true → (t == TT.minus) = false := by
+  intro t; cases t <;> decide
+
+theorem c_lit (c : Tok) (q : Rat) (h : G.Lit c q) : MU [c] (.const 0 q) := by
+  intro fuel rest hfuel hr _
+  obtain ⟨k, rfl⟩ : ∃ k, fuel = k + 1 := ⟨fuel - 1, by omega⟩
+  rw [List.singleton_append, parseUnary_noMinus k _ (by simp [headType_cons, h.1]),
+    unaryBody_lit k false c q h]
+  simp [hr]
+
+theorem c_negLit (m c : Tok) (q : Rat) (hm : m.type = .minus) (h : G.Lit c q) :
+    MU [m, c] (.const 0 (-q)) := by
+  intro fuel rest hfuel hr _
+  obtain ⟨k, rfl⟩ : ∃ k, fuel = k + 1 := ⟨fuel - 1, by omega⟩
+  rw [show [m, c] ++ rest = m :: c :: rest from rfl, parseUnary_minus k m hm,
+    unaryBody_lit k true c q h]
+  simp [hr]
+
+theorem c_fact (c b : Tok) (q : Rat) (h : G.Lit c q) (hb : b.type = .factorial) :
+    MU [c, b] (.un 0 .fact (.const 0 q)) := by
+  intro fuel rest hfuel _ _
+  obtain ⟨k, rfl⟩ : ∃ k, fuel = k + 1 := ⟨fuel - 1, by omega⟩
+  rw [show [c, b] ++ rest = c :: b :: rest from rfl,
+    parseUnary_noMinus k _ (by simp [headType_cons, h.1]), unaryBody_lit k false c q h]
+  have h1 : firstFactor (headType (b :: rest)) = true := by simp [headType_cons, hb]; decide
+  have h2 : (headType (b :: rest) == .factorial) = true := by simp [headType_cons, hb]
+  simp only [h1, h2, if_true]
+  rw [eat_cons _ hb (by decide)]
+  simp
+
+theorem c_negFact (m c b : Tok) (q : Rat) (hm : m.type = .minus) (h : G.Lit c q)
+    (hb : b.type = .factorial) : MU [m, c, b] (.un 0 .fact (.const 0 (-q))) := by
+  intro fuel rest hfuel _ _
+  obtain ⟨k, rfl⟩ : ∃ k, fuel = k + 1 := ⟨fuel - 1, by omega⟩
+  rw [show [m, c, b] ++ rest = m :: c :: b :: rest from rfl, parseUnary_minus k m hm,
+    unaryBody_lit k true c q h]
+  have h1 : firstFactor (headType (b :: rest)) = true := by simp [headType_cons, hb]; decide
+  have h2 : (headType (b :: rest) == .factorial) = true := by simp [headType_cons, hb]
+  simp only [h1, h2, if_true]
+  rw [eat_cons _ hb (by decide)]
+
+theorem c_litFactors (c : Tok) (q : Rat) (h : G.Lit c q) {fs : List Tok} {f : Ex}
+    (a : G.Factors fs f) (ih : MF fs f) : MU (c :: fs) (.bin 0 .mul (.const 0 q) f) := by
+  intro fuel rest hfuel hr hx
+  obtain ⟨k, rfl⟩ : ∃ k, fuel = k + 1 := ⟨fuel - 1, by omega⟩
+  have hs := (hd_Factors a).head rest
+  have hp := ih k rest (by simp at hfuel; omega) hr (by
+    rwa [endsClosed_cons _ _ (hd_Factors a).ne_nil] at hx)
+  rw [List.cons_append, parseUnary_noMinus k _ (by simp [headType_cons, h.1]),
+    unaryBody_lit k false c q h]
+  simp only [primStart_firstFactor _ hs, primStart_not_factorial _ hs, hp]
+  simp
+
+theorem c_negLitFactors (m c : Tok) (q : Rat) (hm : m.type = .minus) (h : G.Lit c q)
+    {fs : List Tok} {f : Ex} (a : G.Factors fs f) (ih : MF fs f) :
+    MU (m :: c :: fs) (.bin 0 .mul (.const 0 (-q)) f) := by
+  intro fuel rest hfuel hr hx
+  obtain ⟨k, rfl⟩ : ∃ k, fuel = k + 1 := ⟨fuel - 1, by omega⟩
+  have hs := (hd_Factors a).head rest
+  have hp := ih k rest (by simp at hfuel; omega) hr (by
+    rwa [endsClosed_cons _ _ (by simp), endsClosed_cons _ _ (hd_Factors a).ne_nil] at hx)
+  rw [List.cons_append, List.cons_append, parseUnary_minus k m hm, unaryBody_lit k true c q h]
+  simp only [primStart_firstFactor _ hs, primStart_not_factorial _ hs, hp]
+  simp
+
+theorem c_factors {fs : List Tok} {f : Ex} (a : G.Factors fs f) (ih : MF fs f) : MU fs f := by
+  intro fuel rest hfuel hr hx
+  obtain ⟨k, rfl⟩ : ∃ k, fuel = k + 1 := ⟨fuel - 1, by omega⟩
+  have hs := (hd_Factors a).head rest
+  rw [parseUnary_noMinus k _ (primStart_not_minus _ hs), unaryBody_factors k false _ hs,
+    ih k rest (by omega) hr hx]
+  simp
+
+theorem c_negFactors (m : Tok) (hm : m.type = .minus) {fs : List Tok} {f : Ex}
+    (a : G.Factors fs f) (ih : MF fs f) : MU (m :: fs) (.un 0 .neg f) := by
+  intro fuel rest hfuel hr hx
+  obtain ⟨k, rfl⟩ : ∃ k, fuel = k + 1 := ⟨fuel - 1, by omega⟩
+  have hs := (hd_Factors a).head rest
+  rw [List.cons_append, parseUnary_minus k m hm, unaryBody_factors k true _ hs,
+    ih k rest (by simp at hfuel; omega) hr (by
+      rwa [endsClosed_cons _ _ (hd_Factors a).ne_nil] at hx)]
+  simp
+
+/-! ### ExpE -/
+
+theorem c_unary {ts : List Tok} {e : Ex} (a : G.UnaryE ts e) (ih : MU ts e) : ME ts e := by
+  intro fuel rest hfuel hr
+  obtain ⟨k, rfl⟩ : ∃ k, fuel = k + 1 := ⟨fuel - 1, by omega⟩
+  rw [parseExponent]
+  simp only [unaryStart_firstUnary _ ((hd_UnaryE a).head rest),
+    ih k rest (by omega) (contE_ff _ hr) (.inl (contE_exp _ hr)), contE_exp _ hr]
+  simp
+
+theorem c_epow (x : Tok) (hx : x.type = .exponent) {ts us : List Tok} {b u : Ex}
+    (a : G.UnaryE ts b) (hc : G.endsClosed ts = true) (a' : G.UnaryE us u)
+    (ih : MU ts b) (ih' : MU us u) : ME (ts ++ x :: us) (.bin 0 .pow b u) := by
+  intro fuel rest hfuel hr
+  obtain ⟨k, rfl⟩ : ∃ k, fuel = k + 1 := ⟨fuel - 1, by omega⟩
+  have h1 := ih k (x :: us ++ rest) (by simp at hfuel; omega)
+    (by simp [headType_cons, hx]; decide) (.inr hc)
+  have h2 := ih' k rest (by simp at hfuel; omega) (contE_ff _ hr) (.inl (contE_exp _ hr))
+  have h3 : isExpTok (headType (x :: us ++ rest)) = true := by
+    simp [headType_cons, hx]; decide
+  rw [List.append_assoc, parseExponent]
+  simp only [unaryStart_firstUnary _ ((hd_UnaryE a).head _), h1, h3, if_true]
+  rw [List.cons_append, eat_cons _ hx (by decide)]
+  simp only [unaryStart_firstUnary _ ((hd_UnaryE a').head _), h2]
+  simp
+
+/-! ### MultLoop, MultE -/
+
+theorem multLoop_stop (k : Nat) (acc : Ex) (rest : List Tok)
+    (h : isMultTok (headType rest) = false) : multLoop (k + 1) acc rest = .ok (acc, rest) := by
+  rw [multLoop]; simp [h]
+
+theorem c_mdone (acc : Ex) : MML acc [] acc := by
+  intro fuel rest hfuel hr
+  obtain ⟨k, rfl⟩ : ∃ k, fuel = k + 1 := ⟨fuel - 1, by omega⟩
+  exact multLoop_stop k acc rest (contM_mult _ hr)
+
+theorem c_div (d : Tok) (hd : d.type = .divide) {acc r e : Ex} {ts ts' : List Tok}
+    (a : G.ExpE ts r) (a' : G.MultLoop (.bin 0 .div acc r) ts' e)
+    (ih : ME ts r) (ih' : MML (.bin 0 .div acc r) ts' e) : MML acc (d :: ts ++ ts') e := by
+  intro fuel rest hfuel hr
+  obtain ⟨k, rfl⟩ : ∃ k, fuel = k + 1 := ⟨fuel - 1, by omega⟩
+  have h1 := ih k (ts' ++ rest) (by simp at hfuel; omega) (cont_MultLoop a' hr)
+  have h2 := ih' k rest (by simp at hfuel; omega) hr
+  rw [List.cons_append, List.cons_append, List.append_assoc, multLoop]
+  simp only [headType_cons, hd]
+  rw [eat_cons _ hd (by decide)]
+  have h3 : firstExp (headType (ts ++ (ts' ++ rest))) = true :=
+    unaryStart_firstUnary _ ((hd_ExpE a).head _)
+  have h4 : isMultTok TT.divide = true := by decide
+  simp only [h4, h3, h1, if_true]
+  exact h2
+
+theorem c_mul (m : Tok) (hm : m.type = .multiply) {acc r : Ex} {ts : List Tok}
+    (a : G.MultE ts r) (ih : MM ts r) : MML acc (m :: ts) (.bin 0 .mul acc r) := by
+  intro fuel rest hfuel hr
+  obtain ⟨k, rfl⟩ : ∃ k, fuel = k + 1 := ⟨fuel - 1, by omega⟩
+  obtain ⟨k', rfl⟩ : ∃ k', k = k' + 1 := ⟨k - 1, by simp at hfuel; omega⟩
+  have h1 := ih (k' + 1) rest (by simp at hfuel; omega) hr
+  rw [List.cons_append, multLoop]
+  simp only [headType_cons, hm]
+  rw [eat_cons _ hm (by decide)]
+  have h3 : firstExp (headType (ts ++ rest)) = true :=
+    unaryStart_firstUnary _ ((hd_MultE a).head _)
+  have h4 : isMultTok TT.multiply = true := by decide
+  simp only [h4, h3, h1, if_true]
+  exact multLoop_stop k' _ rest (contM_mult _ hr)
+
+theorem c_mmk {ts ts' : List Tok} {e0 e : Ex} (a : G.ExpE ts e0) (a' : G.MultLoop e0 ts' e)
+    (ih : ME ts e0) (ih' : MML e0 ts' e) : MM (ts ++ ts') e := by
+  intro fuel rest hfuel hr
+  obtain ⟨k, rfl⟩ : ∃ k, fuel = k + 1 := ⟨fuel - 1, by omega⟩
+  have h1 := ih k (ts' ++ rest) (by simp at hfuel; omega) (cont_MultLoop a' hr)
+  have h2 := ih' k rest (by simp at hfuel; omega) hr
+  have h3 : firstExp (headType (ts ++ (ts' ++ rest))) = true :=
+    unaryStart_firstUnary _ ((hd_ExpE a).head _)
+  rw [List.append_assoc, parseMult]
+  simp only [h3, h1, h2]
+  simp
+
+/-! ### AddLoop, AddE -/
+
+theorem c_adone (acc : Ex) : MAL acc [] acc := by
+  intro fuel rest hfuel hr
+  obtain ⟨k, rfl⟩ : ∃ k, fuel = k + 1 := ⟨fuel - 1, by omega⟩
+  rw [List.nil_append, addLoop]; simp [contA_add _ hr]
+
+theorem c_plus (p : Tok) (hp : p.type = .plus) {acc r e : Ex} {ts ts' : List Tok}
+    (a : G.MultE ts r) (a' : G.AddLoop (.bin 0 .add acc r) ts' e)
+    (ih : MM ts r) (ih' : MAL (.bin 0 .add acc r) ts' e) : MAL acc (p :: ts ++ ts') e := by
+  intro fuel rest hfuel hr
+  obtain ⟨k, rfl⟩ : ∃ k, fuel = k + 1 := ⟨fuel - 1, by omega⟩
+  have h1 := ih k (ts' ++ rest) (by simp at hfuel; omega) (cont_AddLoop a' hr)
+  have h2 := ih' k rest (by simp at hfuel; omega) hr
+  rw [List.cons_append, List.cons_append, List.append_assoc, addLoop]
+  simp only [headType_cons, hp]
+  rw [eat_cons _ hp (by decide)]
+  have h3 : firstMult (headType (ts ++ (ts' ++ rest))) = true :=
+    unaryStart_firstUnary _ ((hd_MultE a).head _)
+  have h4 : isAddTok TT.plus = true := by decide
+  simp only [h4, h3, h1, if_true]
+  exact h2
+
+theorem c_minus (p : Tok) (hp : p.type = .minus) {acc r e : Ex} {ts ts' : List Tok}
+    (a : G.MultE ts r) (a' : G.AddLoop (.bin 0 .sub acc r) ts' e)
+    (ih : MM ts r) (ih' : MAL (.bin 0 .sub acc r) ts' e) : MAL acc (p :: ts ++ ts') e := by
+  intro fuel rest hfuel hr
+  obtain ⟨k, rfl⟩ : ∃ k, fuel = k + 1 := ⟨fuel - 1, by omega⟩
+  have h1 := ih k (ts' ++ rest) (by simp at hfuel; omega) (cont_AddLoop a' hr)
+  have h2 := ih' k rest (by simp at hfuel; omega) hr
+  rw [List.cons_append, List.cons_append, List.append_assoc, addLoop]
+  simp only [headType_cons, hp]
+  rw [eat_cons _ hp (by decide)]
+  have h3 : firstMult (headType (ts ++ (ts' ++ rest))) = true :=
+    unaryStart_firstUnary _ ((hd_MultE a).head _)
+  have h4 : isAddTok TT.minus = true := by decide
+  simp only [h4, h3, h1, if_true]
+  exact h2
+
+theorem c_amk {ts ts' : List Tok} {e0 e : Ex} (a : G.MultE ts e0) (a' : G.AddLoop e0 ts' e)
+    (ih : MM ts e0) (ih' : MAL e0 ts' e) : MA (ts ++ ts') e := by
+  intro fuel rest hfuel hr
+  obtain ⟨k, rfl⟩ : ∃ k, fuel = k + 1 := ⟨fuel - 1, by omega⟩
+  have h1 := ih k (ts' ++ rest) (by simp at hfuel; omega) (cont_AddLoop a' hr)
+  have h2 := ih' k rest (by simp at hfuel; omega) hr
+  have h3 : firstMult (headType (ts ++ (ts' ++ rest))) = true :=
+    unaryStart_firstUnary _ ((hd_MultE a).head _)
+  rw [List.append_assoc, parseAdd]
+  simp only [h3, h1, h2]
+  simp
+
+/-! ### assembling the mutual induction -/
+
+theorem addE_complete {ts : List Tok} {e : Ex} (h : G.AddE ts e) : MA ts e :=
+  G.AddE.rec (motive_1 := fun ts e _ => MP ts e) (motive_2 := fun ts es _ => MS ts es)
+    (motive_3 := fun ts e _ => MF ts e) (motive_4 := fun ts e _ => MU ts e)
+    (motive_5 := fun ts e _ => ME ts e) (motive_6 := fun acc ts e _ => MML acc ts e)
+    (motive_7 := fun ts e _ => MM ts e) (motive_8 := fun acc ts e _ => MAL acc ts e)
+    (motive_9 := fun ts e _ => MA ts e)
+    (fun t h => c_var t h)
+    (fun f o c hf ho hc _ _ _ ih => c_fn f o c hf ho hc ih)
+    (fun o c ho hc _ _ _ ih => c_paren o c ho hc ih)
+    (fun _ ih => c_one ih)
+    (fun a b ih ih' => c_cons a b ih ih')
+    (fun _ ih => c_plain ih)
+    (fun x hx _ _ _ _ _ _ _ _ b heq ih ih' => c_pow x hx b heq ih ih')
+    (fun c q h => c_lit c q h)
+    (fun m c q hm h => c_negLit m c q hm h)
+    (fun c b q h hb => c_fact c b q h hb)
+    (fun m c b q hm h hb => c_negFact m c b q hm h hb)
+    (fun c q h _ _ a ih => c_litFactors c q h a ih)
+    (fun m c q hm h _ _ a ih => c_negLitFactors m c q hm h a ih)
+    (fun a ih => c_factors a ih)
+    (fun m hm _ _ a ih => c_negFactors m hm a ih)
+    (fun a ih => c_unary a ih)
+    (fun x hx _ _ _ _ a hc a' ih ih' => c_epow x hx a hc a' ih ih')
+    (fun acc => c_mdone acc)
+    (fun d hd _ _ _ _ _ a a' ih ih' => c_div d hd a a' ih ih')
+    (fun m hm _ _ _ a ih => c_mul m hm a ih)
+    (fun a a' ih ih' => c_mmk a a' ih ih')
+    (fun acc => c_adone acc)
+    (fun p hp _ _ _ _ _ a a' ih ih' => c_plus p hp a a' ih ih')
+    (fun p hp _ _ _ _ _ a a' ih ih' => c_minus p hp a a' ih ih')
+    (fun a a' ih ih' => c_amk a a' ih ih')
+    h
+
+/-! ### EqLoop, EqualE -/
+
+theorem eqLoop_complete {acc : Ex} {ts : List Tok} {e : Ex} (h : G.EqLoop acc ts e) :
+    ∀ fuel rest, 8 * ts.length + 1 ≤ fuel → contQ (headType rest) = true →
+      equalLoop fuel acc (ts ++ rest) = .ok (e, rest) := by
+  induction h with
+  | done acc =>
+    intro fuel rest hfuel hr
+    obtain ⟨k, rfl⟩ : ∃ k, fuel = k + 1 := ⟨fuel - 1, by omega⟩
+    rw [List.nil_append, equalLoop]; simp [contQ_eq _ hr]
+  | @eq q hq acc r e ts ts' a a' ih =>
+    intro fuel rest hfuel hr
+    obtain ⟨k, rfl⟩ : ∃ k, fuel = k + 1 := ⟨fuel - 1, by omega⟩
+    have h1 := addE_complete a k (ts' ++ rest) (by simp at hfuel; omega) (cont_EqLoop a' hr)
+    have h2 := ih k rest (by simp at hfuel; omega) hr
+    rw [List.cons_append, List.cons_append, List.append_assoc, equalLoop]
+    have h3 : firstAdd (headType (ts ++ (ts' ++ rest))) = true :=
+      unaryStart_firstUnary _ ((hd_AddE a).head _)
+    have h4 : isEqualTok (headType (q :: (ts ++ (ts' ++ rest)))) = true := by
+      simp [headType_cons, hq]; decide
+    simp only [h4, if_true]
+    rw [eat_cons _ hq (by decide)]
+    simp only [h3, h1, if_true]
+    exact h2
+
+theorem equalE_complete {ts : List Tok} {e : Ex} (h : G.EqualE ts e) :
+    ∀ fuel rest, 8 * ts.length + 7 ≤ fuel → contQ (headType rest) = true →
+      parseEqual fuel (ts ++ rest) = .ok (e, rest) := by
+  cases h with
+  | @mk ts ts' e0 e a a' =>
+    intro fuel rest hfuel hr
+    obtain ⟨k, rfl⟩ : ∃ k, fuel = k + 1 := ⟨fuel - 1, by omega⟩
+    have h1 := addE_complete a k (ts' ++ rest) (by simp at hfuel; omega) (cont_EqLoop a' hr)
+    have h2 := eqLoop_complete a' k rest (by simp at hfuel; omega) hr
+    have h3 : firstAdd (headType (ts ++ (ts' ++ rest))) = true :=
+      unaryStart_firstUnary _ ((hd_AddE a).head _)
+    rw [List.append_assoc, parseEqual]
+    simp only [h3, h1]
+    simpa using h2
+
+theorem hd_EqualE {ts e} (h : G.EqualE ts e) : StartsWith unaryStart ts := by
+  cases h with
+  | mk a b => exact (hd_AddE a).append _
+
+theorem unaryStart_not_eof : ∀ t, unaryStart t = true → (t == TT.eof) = false := by
+  intro t; cases t <;> decide
+
+end PC
+
+open PC in
 
 theorem parseToks_complete (body : List Tok) (e : Ex) (hb : ∀ t ∈ body, t.type ≠ .eof)
     (h : G.EqualE body e) : parseToks (body ++ [eofTok]) = .ok e := by
-  sorry
+  -- `hb` is not needed: every terminal of the grammar fixes its token type, none of them `.eof`
+  have _ := hb
+  have h0 : (headType (body ++ [eofTok]) == .eof) = false :=
+    unaryStart_not_eof _ ((hd_EqualE h).head _)
+  have h1 := equalE_complete h (parseFuel (body ++ [eofTok])) [eofTok]
+    (by simp [parseFuel]; omega) (by decide)
+  unfold parseToks
+  simp only [h0, h1]
+  simp [headType, eofTok]
 
 end Mathy
